@@ -353,10 +353,99 @@ def _no_zero_regular(T):
     return T
 
 
+# ------------------------------------------------------------------------------------------------ tier P: ak.from_iter / ak.ArrayBuilder
+def _enc_leaf(cmd):
+    op = cmd[0]
+    if op == "null":
+        return None
+    if op in ("boolean", "integer", "real", "string"):
+        return cmd[1]
+    if op == "complex":
+        return {"c": [cmd[1], cmd[2]]}
+    if op in ("datetime", "timedelta"):
+        return {"d": [cmd[1], cmd[2]]}
+    if op == "bytestring":
+        return {"b": cmd[1]}
+    raise HarnessError("not a leaf command %r" % (cmd,))
+
+
+@st.composite
+def py_item(draw, depth, cplx):
+    """one Python value in the tagged JSON encoding of _lb_encode ({"t": tuple}, {"r": record}, {"b": bytes}, {"c": complex}, {"d": time})"""
+    k = draw(st.integers(0, 99))
+    if depth <= 0 or k < 50:
+        return _enc_leaf(draw(leaf(cplx)))
+    if k < 72:
+        return [draw(py_item(depth - 1, cplx)) for _ in range(draw(st.integers(0, 4)))]
+    if k < 90:
+        keys = list(draw(st.permutations(KEYS[:4])))[:draw(st.sampled_from([0, 1, 2, 2, 3]))]
+        return {"r": [[key, draw(py_item(depth - 1, cplx))] for key in keys]}
+    return {"t": [draw(py_item(depth - 1, cplx)) for _ in range(draw(st.sampled_from([0, 1, 2, 2, 3])))]}
+
+
+@st.composite
+def py_case(draw):
+    cplx = draw(st.integers(0, 3)) == 0
+    depth = draw(st.sampled_from([1, 2, 2, 3]))
+    n = draw(st.integers(0, 9))
+    return {"kind": "py", "values": [draw(py_item(depth, cplx)) for _ in range(n)],
+            "initial": draw(st.sampled_from([1, 2, 3, 8])), "resize": draw(st.sampled_from([1.1, 1.5, 2.0])),
+            "snap_at": draw(st.integers(0, n))}
+
+
+def _py_steps(v, out):
+    """the command sequence builder_fromiter (src/python/content.cpp) issues for one value"""
+    if v is None:
+        out.append(["null"])
+    elif isinstance(v, bool):
+        out.append(["boolean", v])
+    elif isinstance(v, int):
+        out.append(["integer", v])
+    elif isinstance(v, float):
+        out.append(["real", v])
+    elif isinstance(v, str):
+        out.append(["string", v])
+    elif isinstance(v, list):
+        out.append(["beginlist"])
+        for x in v:
+            _py_steps(x, out)
+        out.append(["endlist"])
+    elif "c" in v:
+        out.append(["complex", v["c"][0], v["c"][1]])
+    elif "d" in v:
+        out.append(["timedelta" if v["d"][1].startswith("timedelta") else "datetime", v["d"][0], v["d"][1]])
+    elif "b" in v:
+        out.append(["bytestring", v["b"]])
+    elif "t" in v:
+        out.append(["begintuple", len(v["t"])])
+        for i, x in enumerate(v["t"]):
+            out.append(["index", i])
+            _py_steps(x, out)
+        out.append(["endtuple"])
+    else:
+        out.append(["beginrecord", None])
+        for key, x in v["r"]:
+            out.append(["field", key])
+            _py_steps(x, out)
+        out.append(["endrecord"])
+    return out
+
+
+def _py_as_ab(case):
+    """the history a 'py' case amounts to (used to locate it relative to the regions of the known findings)"""
+    steps = []
+    for v in case["values"]:
+        _py_steps(v, steps)
+    return {"kind": "ab", "arrays": [], "steps": steps}
+
+
 @st.composite
 def _case(draw, max_steps):
-    if draw(st.integers(0, 7)) == 0:
+    k = draw(st.integers(0, 15))
+    if k < 2:
         return draw(lb_case())
+    if k < 4:
+        return draw(py_case())
     return draw(ab_history(max_steps))
 
 
@@ -365,7 +454,8 @@ def strategy(tier):
 
 
 def setup(flavour, tier):
-    pass
+    from checks import pcommon
+    pcommon.ak()        # import /repo's Python layer once per worker: the per-case forks inherit it
 
 
 # ------------------------------------------------------------------------------------------------ JSON <-> values (lb)
@@ -386,6 +476,8 @@ def _lb_encode(v):
 
 def _lb_decode(v):
     if isinstance(v, dict):
+        if "d" in v:
+            return B.time_value(v["d"][0], v["d"][1])
         if "c" in v:
             return complex(v["c"][0], v["c"][1])
         if "b" in v:
@@ -481,12 +573,16 @@ def _features(case):
 def case_label(case):
     if case["kind"] == "lb":
         return "lb"
+    if case["kind"] == "py":
+        return "py"
     return "ab|" + "+".join(_features(case))
 
 
 def run_case(case):
     if case["kind"] == "lb":
         return run_lb(case)
+    if case["kind"] == "py":
+        return run_py(case)
     layouts = [D.build(d) for d in case["arrays"]]
     arrvals = [M.decode(d)[1] for d in case["arrays"]]
     model = B.BuilderModel(arrvals)
@@ -622,6 +718,99 @@ def run_case(case):
             "sample_class": "ill" if case.get("ill") else ("records" if rec else ("promotion" if promo else "plain"))}
 
 
+# ------------------------------------------------------------------------------------------------ tier P
+_PY_METHOD = {"null": "null", "boolean": "boolean", "integer": "integer", "real": "real", "string": "string", "beginlist": "begin_list",
+              "endlist": "end_list", "begintuple": "begin_tuple", "index": "index", "endtuple": "end_tuple", "field": "field",
+              "endrecord": "end_record"}
+
+
+def _py_apply(b, cmd):
+    op = cmd[0]
+    if op == "complex":
+        b.complex(complex(cmd[1], cmd[2]))
+    elif op in ("datetime", "timedelta"):
+        getattr(b, op)(B.time_value(cmd[1], cmd[2]))
+    elif op == "bytestring":
+        b.bytestring(cmd[1].encode("latin-1"))
+    elif op == "beginrecord":
+        b.begin_record(cmd[1])
+    elif op in ("null", "beginlist", "endlist", "endtuple", "endrecord"):
+        getattr(b, _PY_METHOD[op])()
+    else:
+        getattr(b, _PY_METHOD[op])(cmd[1])
+
+
+def run_py(case):
+    """ak.from_iter(values) and ak.ArrayBuilder fed the same values, through the unmodified Python layer of /repo"""
+    from checks import pcommon as P
+    A = P.ak()
+    data = _lb_decode(case["values"])
+    model = B.BuilderModel()
+    per_item = []
+    for v in case["values"]:
+        st_ = _py_steps(v, [])
+        for cmd in st_:
+            if model.step(cmd) != "ok":
+                raise HarnessError("generator: %r is not well-nested for the model" % (cmd,))
+        per_item.append(st_)
+    T, exp, feats = model.expected()
+
+    has_time = '"d":' in canon(case["values"])
+
+    def compare(x, what):
+        err = x.layout.validityerror()
+        if err is not None:
+            raise Violation("invalid_snapshot:py:" + what, "%s is not a valid array: %s" % (what, err[:300]), observed=_try_describe(x.layout), clause="C11 closure")
+        Tobs, obs = M.decode(D.describe(x.layout))
+        d = B.diff(exp, obs)
+        if d is not None:
+            raise Violation("value:%s|py:%s" % (d[0], what), "%s differs from the Python values it was given: %s" % (what, d[1]),
+                            expected=B.plain(exp), observed=M.jsonable(obs), clause="to_list(from_iter(x)) == x up to the documented unification")
+        if not has_time:        # (ak.to_list turns times into datetime objects or integers depending on the unit: not compared)
+            pv = P.pyvalue(A.to_list(x))
+            d = B.diff(exp, pv)
+            if d is not None:
+                raise Violation("value:%s|py:to_list(%s)" % (d[0], what), "ak.to_list(%s) differs from the Python values it was given: %s" % (what, d[1]),
+                                expected=B.plain(exp), observed=M.jsonable(pv), clause="to_list(from_iter(x)) == x up to the documented unification")
+        return obs
+
+    def guarded(fn, what):
+        try:
+            return fn()
+        except (ValueError, RuntimeError, TypeError, C.OtherNativeError) as e:
+            raise Violation("refused:py:%s" % what, "%s raised %s: %s" % (what, type(e).__name__, str(e)[:300]),
+                            expected="accepted", observed=str(e)[:300], clause="well-nested sequences are accepted")
+
+    arr = guarded(lambda: A.from_iter(data, initial=case["initial"], resize=case["resize"]), "from_iter")
+    compare(arr, "from_iter")
+    # the same values through the high-level ak.ArrayBuilder, with a snapshot taken on the way
+    b = A.ArrayBuilder(initial=case["initial"], resize=case["resize"])
+    early = None
+    for i, cmds in enumerate(per_item):
+        if i == case["snap_at"]:
+            early = guarded(b.snapshot, "ArrayBuilder.snapshot")
+            early_desc = canon(D.describe(early.layout))
+        for cmd in cmds:
+            guarded(lambda: _py_apply(b, cmd), "ArrayBuilder." + cmd[0])
+    snap = guarded(b.snapshot, "ArrayBuilder.snapshot")
+    compare(snap, "ArrayBuilder")
+    if len(b) != len(exp):
+        raise Violation("length:py", "len(ak.ArrayBuilder) = %d after %d values" % (len(b), len(exp)), expected=len(exp), observed=len(b))
+    if early is not None:
+        now = canon(D.describe(early.layout))
+        if now != early_desc or len(early) != case["snap_at"]:
+            raise Violation("mutated_snapshot:py", "the snapshot taken after %d values changed while more were appended" % case["snap_at"],
+                            expected=json.loads(early_desc), observed=json.loads(now), clause="snapshots are immutable")
+    if canon(D.describe(arr.layout)) != canon(D.describe(snap.layout)):
+        raise Violation("determinism:py", "ak.from_iter and ak.ArrayBuilder fed the same values give different layouts",
+                        expected=D.describe(arr.layout), observed=D.describe(snap.layout), clause="equal builder states give equal snapshots")
+    promo = any(f.startswith("promote:") or f in ("option", "union") for f in feats)
+    rec = "record_order" in feats or "record_backfill" in feats
+    return {"tags": ["py"] + ["pyfeat:" + f for f in sorted(feats) if not f.startswith("region:")],
+            "counts": {"py_values": len(exp)}, "nontrivial": (promo or rec) and 0 < case["snap_at"] < len(exp),
+            "sample_class": "python"}
+
+
 # ------------------------------------------------------------------------------------------------ LayoutBuilder
 def _lb_tagged(T, v):
     """values of union type carry the member index for layout_commands: (tag, value)"""
@@ -705,6 +894,8 @@ def _lb_shape(T):
 # ------------------------------------------------------------------------------------------------ known findings
 def regions(case):
     """input regions of the recorded known findings that this history enters (computed on the model, not the library)"""
+    if case.get("kind") == "py":
+        case = _py_as_ab(case)
     if case.get("kind") != "ab":
         return set()
     model = B.BuilderModel([M.decode(d)[1] for d in case["arrays"]])
